@@ -349,14 +349,14 @@ def tu_source(group, s, src=None):
         k = len(s.layers) - len(src.layers)
         L.append(traits(s, 'TrO'))
         L.append(traits(src, 'TrI'))
-        L.append('static ad::Registrar reg_(&ad::Wrap<TrO, TrI, %d>::reg);' % k)
+        L.append('static ad::Registrar reg_ __attribute__((init_priority(1000))) (&ad::Wrap<TrO, TrI, %d>::reg);' % k)
     elif group == 'conv':
         L.append(traits(s, 'TrD'))
         L.append(traits(src, 'TrS'))
-        L.append('static ad::Registrar reg_(&ad::Conv<TrD, TrS>::reg);')
+        L.append('static ad::Registrar reg_ __attribute__((init_priority(1000))) (&ad::Conv<TrD, TrS>::reg);')
     else:
         L.append(traits(s))
         cls = {'core': 'Core', 'io': 'Io', 'thr': 'Thr', 'dmp': 'Dmp'}[group]
-        L.append('static ad::Registrar reg_(&ad::%s<Tr>::reg);' % cls)
+        L.append('static ad::Registrar reg_ __attribute__((init_priority(1000))) (&ad::%s<Tr>::reg);' % cls)
     L.append('}')
     return '\n'.join(L) + '\n'
